@@ -206,8 +206,14 @@ class Global(D):
     def make(self, it, name, idx=()):
         from .extract import load_module
 
+        from . import concretize
+        from .values import VObj
+
         modname, _, attr = self.qual.partition(":")
-        return it.module_get(load_module(modname), attr)
+        v = it.module_get(load_module(modname), attr)
+        if isinstance(v, VObj):
+            concretize.GLOBAL_IDS[id(v)] = (v, self.qual)  # replay: the native value is the module-level object itself (identity matters for sentinels)
+        return v
 
 
 class ExcOf(D):
